@@ -414,5 +414,6 @@ pub async fn scenario(seed: u64, opts: &DataOpts) {
         tr(json!({"ev": "drop", "ep": d.rep, "what": "receiver"}));
         drop(d.rx);
     }
+    tr(json!({"ev": "all_dropped"}));
     conn.teardown().await;
 }
